@@ -12,7 +12,7 @@ RULE = ('operation histories over graphs with 1-4 attackers: attacker.compromise
         'both undo variants (also on pairs that are not compromised), attach_attackers (model entry points incl. '
         'non-existent step names and several steps per asset), add_attacker with reached steps (attackers may share a name), deepcopy of the graph (the history continues on the copy), remove_attacker '
         '(0, 1, >=2 reached steps); on hand-built graphs and on graphs generated from G_lang x G_model. Oracle: '
-        'reference relation R (attackers x nodes) updated by the operations; after every operation '
+        'reference relation R (attackers x nodes) updated by the operations (also remove_node and the generation of another graph from the same model before attaching); after every operation '
         'n in a.reached <=> a in n.compromised_by <=> (a,n) in R, no duplicates on either side, '
         'is_compromised_by agrees, removed attackers are listed by no node; attach creates exactly one attacker '
         'per model attacker whose entry points = reached steps = the existing nodes named by the model. '
@@ -113,6 +113,18 @@ def check_case(case) -> Outcome:
                 g.remove_attacker(a)
                 dead[id(a)] = live.pop(id(a))
                 R = {(x, n) for (x, n) in R if x != id(a)}
+            elif k == 'remove_node':
+                if len(nodes) < 2:
+                    continue
+                n = nodes[o[1] % len(nodes)]
+                g.remove_node(n)
+                R = {(x, m) for (x, m) in R if m != id(n)}
+            elif k == 'other_graph':
+                # another graph generated from the same model must not interfere with this one
+                if model is not None and getattr(g, 'lang_graph', None) is not None:
+                    from .c01 import _Guard
+                    with _Guard(len(nodes)):
+                        AttackGraph(g.lang_graph, model)
             elif k == 'copy':
                 import copy as _copy
                 old_nodes = {n.id: id(n) for n in g.nodes}
@@ -168,10 +180,13 @@ def _ops(n, generated):
     small = st.integers(0, 15)
     alts = [st.tuples(st.sampled_from(['a_comp', 'n_comp', 'a_comp', 'n_comp', 'a_undo', 'n_undo']), small, small),
             st.just(('copy',)),
+            st.tuples(st.just('remove_node'), small),
             st.tuples(st.just('add'), st.lists(small, max_size=4)),
             st.tuples(st.just('remove'), small)]
     if generated:
         alts.append(st.just(('attach',)))
+        alts.append(st.just(('attach',)))
+        alts.append(st.just(('other_graph',)))
     return st.lists(st.one_of(*alts).map(list), min_size=1, max_size=n)
 
 
